@@ -32,6 +32,12 @@ def run(desc):
         out.c("paper_orders", len(r.tr.samples))
         out.c("paper_walks")
         return out.result()
+    if desc["idx"] % 6 == 2 and desc.get("profile") not in ("recorded", "recorded_event"):
+        # starting-price markets in which some runners get no actual starting price at the off (orders carried to the off on them stay open)
+        desc = dict(desc)
+        mp_ = dict(_sim.PROFILES[desc["profile"]].get("market_params") or {})
+        mp_.update(p_no_bsp=0.4, p_bsp=1.0, p_inplay=1.0)
+        desc["overrides"] = dict(desc.get("overrides") or {}, market_params=mp_)
     case, snaps = _sim.build(desc)
     if case.get("event_processing"):
         case["sample_siblings"] = True  # the strategy also looks at its orders in the event's other markets whenever it is called
